@@ -166,6 +166,7 @@ type EntryResult struct {
 	MaxUnwind    int
 	Unknowns     int
 	Inconclusive []string
+	ForkSites    map[string]int
 }
 
 type PathSample struct {
@@ -296,6 +297,12 @@ func (e *Engine) RunEntry(cfg *EntryCfg, deadline time.Time) (*EntryResult, erro
 			if nontriv && pr.End != endInfeasible {
 				res.Nontrivial++
 			}
+			for k, v := range pr.ForkSites {
+				if res.ForkSites == nil {
+					res.ForkSites = map[string]int{}
+				}
+				res.ForkSites[k] += v
+			}
 			for _, l := range pr.Reached {
 				res.Reached[l]++
 			}
@@ -317,7 +324,7 @@ func (e *Engine) RunEntry(cfg *EntryCfg, deadline time.Time) (*EntryResult, erro
 			}
 			queue = append(queue, pr.NewWork...)
 			if res.Paths >= cfg.MaxPaths || time.Now().After(deadline) {
-				if len(queue) > 0 || busy > 0 {
+				if (len(queue) > 0 || busy > 0) && !stop {
 					res.Inconclusive = append(res.Inconclusive, fmt.Sprintf("exploration stopped after %d paths with %d prefixes pending (max_paths/deadline)", res.Paths, len(queue)))
 				}
 				stop = true
@@ -340,6 +347,23 @@ func (e *Engine) RunEntry(cfg *EntryCfg, deadline time.Time) (*EntryResult, erro
 	}
 	wg.Wait()
 	res.Wall = time.Since(t0)
+	if e.Verbose && len(res.ForkSites) > 0 {
+		type kv struct {
+			k string
+			v int
+		}
+		var l []kv
+		for k, v := range res.ForkSites {
+			l = append(l, kv{k, v})
+		}
+		sort.Slice(l, func(i, j int) bool { return l[i].v > l[j].v })
+		for i, x := range l {
+			if i >= 25 {
+				break
+			}
+			fmt.Fprintf(os.Stderr, "  fork-site %6d %s\n", x.v, x.k)
+		}
+	}
 	res.Exhaustive = !stop
 	// classify inconclusive ends
 	for _, k := range []string{"unsupported", "unwind-exceeded", "budget", "engine-error"} {
@@ -525,28 +549,30 @@ func (m *Machine) noteVals() []string {
 // overlay helpers
 
 // HarnessOverlay maps the harness files of dir into pkgDir of the repo.
-func HarnessOverlay(repo, pkgDir, harnessDir string, symbolic bool) (map[string][]byte, error) {
+func HarnessOverlay(repo, pkgDir, harnessDirs string, symbolic bool) (map[string][]byte, error) {
 	ov := map[string][]byte{}
-	ents, err := os.ReadDir(harnessDir)
-	if err != nil {
-		return nil, err
-	}
-	for _, en := range ents {
-		name := en.Name()
-		if !strings.HasSuffix(name, ".go") {
-			continue
-		}
-		if strings.HasSuffix(name, "_replay.go") && symbolic {
-			continue
-		}
-		if strings.HasSuffix(name, "_sym.go") && !symbolic {
-			continue
-		}
-		b, err := os.ReadFile(filepath.Join(harnessDir, name))
+	for _, harnessDir := range strings.Split(harnessDirs, ",") {
+		ents, err := os.ReadDir(harnessDir)
 		if err != nil {
 			return nil, err
 		}
-		ov[filepath.Join(repo, pkgDir, "zz_vrf_"+name)] = b
+		for _, en := range ents {
+			name := en.Name()
+			if !strings.HasSuffix(name, ".go") {
+				continue
+			}
+			if strings.HasSuffix(name, "_replay.go") && symbolic {
+				continue
+			}
+			if strings.HasSuffix(name, "_sym.go") && !symbolic {
+				continue
+			}
+			b, err := os.ReadFile(filepath.Join(harnessDir, name))
+			if err != nil {
+				return nil, err
+			}
+			ov[filepath.Join(repo, pkgDir, "zz_vrf_"+filepath.Base(harnessDir)+"_"+name)] = b
+		}
 	}
 	return ov, nil
 }
